@@ -2,6 +2,12 @@
 
 Theorems: coq/Props/C07.v over coq/Model/Match.v (matcher transcribed branch for branch) and
           coq/Model/MatchSpec.v (kind / admits, from the property text).
+T (tie):  harness/c07_gen.py: the matcher predicates, _match_operands, get_instruction, is_vector_register and the operand
+          classes' __eq__ are re-translated from the CURRENT source on every run (tools/gen_c07.py, tools/py2coq_dyn.py,
+          dynamically typed values of coq/Model/PyDyn.v) and coq/PropsGen/C07gen.v re-proves against that text that they
+          are the hand model on every value of its operand / pattern types (coq/Model/MatchEmbed.v), both ISAs; the
+          translated functions are evaluated on dumps of the real objects of the shards below against the Python functions
+          (second column), and the dumps are compared with the embedding (third column).
 X (tie):  (a) synthetic machine models (YAML text -> the repo's loader; plus entries created in-process)
               x instructions instantiating an entry / near misses / random operands, looked up through the
               REAL ArchSemantics.assign_tp_lt / ISASemantics.assign_src_dst (suffix fall-backs, composition
@@ -22,6 +28,7 @@ import time
 
 import vlib
 import c07_lib as L
+import c07_gen as G
 
 FINISH = dict(level="proof",
               rule="one evaluation = one lookup (mnemonic + operand list) answered by the implementation and by the "
@@ -37,12 +44,19 @@ Open Scope string_scope.
 
 # ------------------------------------------------------------------ shard writer
 class Shard:
+    GEN = None                 # set by run(): {"ok":..., "meta":...} of the translation stage
+    GEN_BUDGET = 600           # second/third-column cases per shard
+
     def __init__(self, name):
         self.name = name
         self.tables = []       # Gallina list terms
         self.cases = []        # (expr, expected, meta)
+        self.selfterms = {}    # table index -> pyval term of the MachineModel object incl. its forms dict
+        self.gen = bool(Shard.GEN and Shard.GEN["ok"])
+        self.dumper = G.dumper_for(Shard.GEN["meta"]) if self.gen else None
+        self.n_gen = 0
 
-    def add_table(self, isa, table):
+    def add_table(self, isa, table, mm=None):
         ents = []
         for key, form in table:
             try:
@@ -51,10 +65,25 @@ class Shard:
                 # an entry outside the vocabulary: keep its position, never matches by name
                 ents.append('(E "" [])')
         self.tables.append("[" + ";\n  ".join(ents) + "]")
-        return len(self.tables) - 1
+        ti = len(self.tables) - 1
+        if self.gen and mm is not None:
+            try:
+                self.selfterms[ti] = G.self_term(self.dumper, mm, G.forms_dict_term(self.dumper, mm, table))
+            except (G.Undumpable, L.Unmodelled):
+                pass
+        return ti
+
+    def gen_room(self):
+        return self.gen and self.n_gen < self.GEN_BUDGET
+
+    def add_gen(self, expr, expected, meta):
+        self.cases.append((expr, expected, dict(meta, column="translated")))
+        self.n_gen += 1
 
     def text(self):
-        out = [PRELUDE]
+        out = [G.SHARD_PRELUDE if self.gen else PRELUDE]
+        if self.gen:
+            out.append(self.dumper.definitions())
         for i, t in enumerate(self.tables):
             out.append("Definition tbl%d : list entry :=\n  %s.\n" % (i, t))
         out.append("Definition cases : list (string * string) := [\n  %s].\n" % ";\n  ".join(
@@ -84,6 +113,43 @@ def add_lookup_case(sh, ti, isa, table, how, mn, ops, res, meta):
     return True
 
 
+def add_gen_calls(sh, ti, table, calls, meta, limit=2):
+    """second column: the TRANSLATED get_instruction on dumps of the real table / operands, for raw get_instruction
+    calls recorded on the real model object (name, operands, returned form | None | exception)"""
+    if ti not in sh.selfterms:
+        return
+    for name, ops, res in calls[:limit]:
+        if not sh.gen_room():
+            return
+        try:
+            nm = "PNone" if name is None else "(PStr %s)" % L.cs(name)
+            ops_t = sh.dumper.share("(PList [%s])" % "; ".join(sh.dumper.term(o) for o in ops))
+        except (G.Undumpable, L.Unmodelled, TypeError):
+            continue
+        if isinstance(res, Exception):
+            x = "!" + type(res).__name__
+        elif res is None:
+            x = "-"
+        else:
+            i = L.index_of(table, res)
+            x = str(i) if i is not None else "?outside"
+        sh.add_gen("show_form (g_get_instruction %s %s %s)" % (sh.selfterms[ti], nm, ops_t), x, dict(meta, get_instruction=name))
+
+
+def add_gen_match(sh, mm, form, ops, meta):
+    """second column: the translated _match_operands on dumps of an entry's pattern list and an operand list"""
+    if not sh.gen_room():
+        return
+    try:
+        pats_t = sh.dumper.share("(PList [%s])" % "; ".join(sh.dumper.term(p) for p in form.operands))
+        ops_t = sh.dumper.share("(PList [%s])" % "; ".join(sh.dumper.term(o) for o in ops))
+        st = G.self_term(sh.dumper, mm)
+    except (G.Undumpable, L.Unmodelled):
+        return
+    x = G.expect_value(lambda: mm._match_operands(form.operands, ops))
+    sh.add_gen("PyDyn.show_res (g_match_operands %s %s %s)" % (st, pats_t, ops_t), x, dict(meta, match_operands=True))
+
+
 def add_check_case(sh, isa, mm, pat, op, meta):
     try:
         e = "show_res (check_operand %s %s %s)" % (L.coq_isa(isa), L.ser_pattern(pat), L.ser_operand(op))
@@ -97,6 +163,25 @@ def add_check_case(sh, isa, mm, pat, op, meta):
     except Exception as ex:
         x = "?" + type(ex).__name__
     sh.cases.append((e, x, meta))
+    if sh.gen_room():
+        R = L._cls()[0]
+        try:
+            tp, to, st = sh.dumper.term(pat), sh.dumper.term(op), G.self_term(sh.dumper, mm)
+        except (G.Undumpable, L.Unmodelled):
+            return True
+        # the translated _check_operands on the dumps of the real objects = the Python function itself
+        sh.add_gen("PyDyn.show_res (g_check_operands %s %s %s)" % (st, tp, to),
+                   G.expect_value(lambda: mm._check_operands(pat, op)), dict(meta, check=True))
+        # the dumps = the embedding of the terms the serialiser wrote (dict operands are embedded by their canonical
+        # text, foreign objects by an arbitrary class: nothing to compare there)
+        parts = []
+        if not isinstance(pat, dict):
+            parts.append('okstr (agrees (embed_pattern envV %s) %s) "pattern"' % (L.ser_pattern(pat), tp))
+        sop = L.ser_operand(op)
+        if sop != "OOther" and not sop.startswith("(ODict"):
+            parts.append('okstr (agrees (embed_operand envV %s) %s) "operand"' % (sop, to))
+        if parts:
+            sh.cases.append((' ++ "/" ++ '.join(parts), "/".join("ok" for _ in parts), dict(meta, column="embedding", check=True)))
     return True
 
 
@@ -117,14 +202,30 @@ def run_shards(ctx, shards, label):
             for item in first.split(","):
                 idx = int(item.split(":")[0])
                 bad.append((s, idx, item))
-    detail = ""
-    if bad:
-        s, idx, item = bad[0]
-        detail = "%d disagreements; first: case %d of %s model/implementation = %s\n  %s\n  meta: %s" % (
-            len(bad), idx, s.name, item.split(":", 1)[1], s.cases[idx][0][:1500], json.dumps(s.cases[idx][2], default=str)[:1500])
-    ctx.obligation("correspondence %s: Model/Match.v = implementation on %d cases" % (label, total), "correspondence", not bad, detail)
+    def describe(lst):
+        if not lst:
+            return ""
+        s, idx, item = lst[0]
+        return "%d disagreements; first: case %d of %s computed/expected = %s\n  %s\n  meta: %s" % (
+            len(lst), idx, s.name, item.split(":", 1)[1], s.cases[idx][0][:1500], json.dumps(s.cases[idx][2], default=str)[:1500])
+    col = lambda b: b[0].cases[b[1]][2].get("column", "model")
+    n_col = {"model": 0, "translated": 0, "embedding": 0}
+    for s in shards:
+        for c in s.cases:
+            n_col[c[2].get("column", "model")] += 1
+    bad_model = [b for b in bad if col(b) == "model"]
+    bad_tr = [b for b in bad if col(b) == "translated"]
+    bad_emb = [b for b in bad if col(b) == "embedding"]
+    ctx.obligation("correspondence %s: Model/Match.v = implementation on %d cases" % (label, n_col["model"]), "correspondence", not bad_model, describe(bad_model))
+    if n_col["translated"]:
+        ctx.obligation("translator cross-check %s: translated matcher (vm_compute on dumps of the real objects) = the Python functions on %d calls"
+                       % (label, n_col["translated"]), "correspondence", not bad_tr, describe(bad_tr))
+        ctx.obligation("embedding cross-check %s: dumps of the real operand / pattern objects agree with Model/MatchEmbed.v on %d pairs"
+                       % (label, n_col["embedding"]), "correspondence", not bad_emb, describe(bad_emb))
     ctx.count(total)
-    ctx.log("correspondence %s: %d cases in %d shards, %d disagreements (%.1fs)" % (label, total, len(shards), len(bad), time.time() - t))
+    ctx.coverage.setdefault("columns", {})[label] = n_col
+    ctx.log("correspondence %s: %d cases in %d shards (%d model, %d translated, %d embedding), %d disagreements (%.1fs)" % (
+        label, total, len(shards), n_col["model"], n_col["translated"], n_col["embedding"], len(bad), time.time() - t))
     return bad
 
 
@@ -215,7 +316,7 @@ def synthetic(ctx):
         if sh is None or len(sh.cases) > 400:
             sh = Shard("c07_syn_%d" % len(shards))
             shards.append(sh)
-        ti = sh.add_table(isa, table)
+        ti = sh.add_table(isa, table, mm)
         twin = None
         for q in range(n_look):
             if twin is not None:
@@ -247,6 +348,8 @@ def synthetic(ctx):
             for name, eops, eres in extra[:2]:          # lookups of the load/store composition path
                 add_lookup_case(sh, ti, isa, table, "G", name, eops, eres, dict(meta, extra=True))
                 stats["composition lookups"] = stats.get("composition lookups", 0) + 1
+            add_gen_calls(sh, ti, table, main + extra, meta, limit=3)
+            add_gen_match(sh, mm, form, ops, meta)
             for _ in range(2):
                 if ops:
                     k2, f2 = ctx.rng.choice(table) if ctx.rng.random() < 0.5 else (key, form)
@@ -318,12 +421,14 @@ def shipped(ctx):
                 keys.add(table[i][0])
             sub = [(k, f) for k, f in table if k in keys]
             sh = Shard("c07_%s_%s_%d" % (what, name.replace("+", "p"), c0))
-            ti = sh.add_table(isa, sub)
+            ti = sh.add_table(isa, sub, model if len(sub) <= 400 else None)
             shards.append(sh)
             for i, mn, ops, mode in chunk:
                 (res, main, extra, err), _form = look(sem, rec, mn, ops)
                 meta = {"model": name, "what": what, "entry": i, "mn": mn, "ops": L.show_ops(ops), "mode": mode}
                 add_lookup_case(sh, ti, isa, sub, "L", mn, ops, res, meta)
+                if ctx.rng.random() < 0.25:
+                    add_gen_calls(sh, ti, sub, main, meta, limit=2)
                 if table[i][1].operands and ops:
                     j = ctx.rng.randrange(min(len(ops), len(table[i][1].operands)))
                     add_check_case(sh, isa, model, table[i][1].operands[j], ops[j], dict(meta, check=True))
@@ -392,7 +497,7 @@ def real_assembly(ctx):
                 keys.update(L.spec_names(isa, mn))
             sub = [(k, f) for k, f in table if k in keys]
             sh = Shard("c07_asm_%s" % arch)
-            ti = sh.add_table(isa, sub)
+            ti = sh.add_table(isa, sub, mm if len(sub) <= 400 else None)
             shards.append(sh)
             for s, mn, ops in parsed:
                 (res, main, extra, err), _form = L.real_lookup_tp_lt(sem, rec, mn, ops)
@@ -400,6 +505,14 @@ def real_assembly(ctx):
                 add_lookup_case(sh, ti, isa, sub, "L", mn, ops, res, meta)
                 for name, eops, eres in extra[:2]:
                     add_lookup_case(sh, ti, isa, sub, "G", name, eops, eres, dict(meta, extra=True))
+                add_gen_calls(sh, ti, sub, main + extra, meta, limit=2)
+                if ops and sub:
+                    # one operand of the real line against a pattern of the entry found (or of any entry of these keys)
+                    j = ctx.rng.randrange(len(ops))
+                    src = res if (res is not None and not isinstance(res, Exception) and len(res.operands) > j and ctx.rng.random() < 0.7) else ctx.rng.choice(sub)[1]
+                    if src.operands:
+                        pat = src.operands[j] if src is res else ctx.rng.choice(src.operands)
+                        add_check_case(sh, isa, mm, pat, ops[j], dict(meta, check=True))
                 verdict = judge(ctx, isa, table, mn, ops, res, {"kind": "asm", "arch": arch, "isa": isa, "line": s}, shipped_data=True)
                 stats[verdict] = stats.get(verdict, 0) + 1
                 if res is not None:
@@ -410,7 +523,10 @@ def real_assembly(ctx):
 
 
 def run(ctx):
-    ctx.trusted += ["hand-written model coq/Model/Match.v (pinned to the implementation by the correspondence shards of every run)",
+    ctx.trusted += ["hand-written model coq/Model/Match.v: proved equal, on every run, to the matcher functions as translated from the current source (PropsGen/C07gen.v); additionally pinned by the correspondence shards",
+                    "translator tools/py2coq_dyn.py + tools/gen_c07.py (fail-closed subset; its output is evaluated against the Python functions on dumps of the real objects every run) and the semantics of coq/Model/PyDyn.v",
+                    "embedding coq/Model/MatchEmbed.v of the hand model's operand/pattern types into Python values (compared with generic dumps of the real objects every run)",
+                    "not translated: the suffix fall-backs in arch_semantics.assign_tp_lt / isa_semantics.assign_src_dst (hand model lookup_with_suffix, correspondence only), the loader operand_to_class",
                     "specification coq/Model/MatchSpec.v (kind/admits) and its Python twin harness/c07_lib.py, written from the property text",
                     "serialiser harness/c07_lib.py (reads the attributes of the operand objects the matcher reads)",
                     "ruamel.yaml and the repo's loader for the tables (the tables reach the model as the loader built them)"]
@@ -422,6 +538,9 @@ def run(ctx):
         ctx.compile_theorems("Props/C07.v")
     else:
         ctx.obligation("theorems of Props/C07.v", "theorem", False, "file missing")
+    # T: regenerate the matcher from the current source, re-prove it equal to the hand model (harness/c07_gen.py);
+    # a failure here is a broken obligation, and the stages below are the search for a concrete failing input
+    Shard.GEN = G.run_T(ctx)
     synthetic(ctx)
     real_assembly(ctx)
     shipped(ctx)
